@@ -436,7 +436,11 @@ def evaluate(case, native):
                     return True, f'tasks returned out of order: leg indices {[x["index"] for x in placed]}'
                 if a['loc'] != t['loc']:
                     return True, f'tasks returned in a different order than the job defines: {[x["loc"] for x in placed]}'
-                lst.insert(idx, t)
+                wins = [[val(w[0]), val(w[1])] for w in t.get('windows', [[t['tws'], t['twe']]])]
+                if [val(a['tws']), val(a['twe'])] not in wins:
+                    return True, f'the returned activity carries the window {[a["tws"], a["twe"]]}, which is none of the windows {wins} of its task'
+                # the activity is inserted as returned: simulate with the window it carries
+                lst.insert(idx, dict(t, tws=a['tws'], twe=a['twe']))
                 last = idx
             ok, why_not = feasible(lst)
             if not ok:
@@ -445,7 +449,7 @@ def evaluate(case, native):
             return False, 'returned positions are feasible in simulation'
         if len(tasks) == 1:
             for p in range(len(jobs) + 1):
-                ok, _ = feasible(jobs[:p] + [tasks[0]] + jobs[p:])
+                ok = any(feasible(jobs[:p] + [dict(tasks[0], tws=w[0], twe=w[1])] + jobs[p:])[0] for w in tasks[0].get('windows', [[tasks[0]['tws'], tasks[0]['twe']]]))
                 if ok:
                     return True, f'evaluator returned Failure although inserting the job at leg {p} is feasible in simulation'
         return False, 'failure is consistent with the simulation (multi-task failure may be incomplete by design)'
